@@ -609,6 +609,10 @@ class C29(core.Check):
                     run.run()
                 except Violation as v:
                     out.violate(v.clause, v.detail, run.opi)
+                except (HarnessError, MemoryError):
+                    raise
+                except Exception as e:
+                    out.violate('C29.2', hist.unexpected(e, (case['ops'][run.opi:run.opi + 1] or [None])[0]), run.opi)
                 finally:
                     del run.slots[:]
                     gc.collect()
